@@ -12,8 +12,8 @@ CHECKS = {
          'Trusted: the reference interpreter (DESIGN Appendix A semantics sheet; constructs outside the sheet are not generated or are skipped as outside-sheet). Programs larger than the node budget are not covered.',
          'E1 progen+refsem', '4 C01'),
  'C03': ('exploration', 'bounded-exhaustive enumeration of hostile inputs in crash-isolating worker processes (token sequences, grammar-slot templates, single-token edits, every default callable/method x hostile argument tuples, deep nesting)',
-         'Every token sequence of <= 3 (thorough 4) tokens over a 68-token alphabet (incl. template strings with blank, comment-only and unbalanced interpolations), the full product of 23 statement/expression templates x 2-17 fillers per slot (absent, doubled, wrong kind; each alone and after a prelude defining the names), every single-token deletion/duplication of the function/container/error/closure families, every default-global callable and every builtin-type method name applied to tuples from 22 hostile values (cyclic containers, extreme integers, NaN, invalid UTF-8, closed channel, exhausted iterator, ...), operators and interpolation on all pairs, and 17 constructs nested up to 10^3 (thorough 10^6) deep are pushed through Parse, Program.String, Compile, Eval and the error formatters inside worker children; a child that dies identifies the input in flight.',
-         'Trusted: the worker protocol (index announced before each input). exec, network modules and exit are excluded (statement exemptions); memory exhaustion by inputs that carry an extreme size is exempt. One known finding (cyclic containers exhaust the native stack).',
+         'Every token sequence of <= 3 (thorough 4) tokens over a 68-token alphabet (incl. template strings with blank, comment-only and unbalanced interpolations), the full product of 23 statement/expression templates x 2-17 fillers per slot (absent, doubled, wrong kind; each alone and after a prelude defining the names), every single-token deletion/duplication of the function/container/error/closure families, every default-global callable and every builtin-type method name applied to tuples from 22 hostile values (cyclic containers, extreme integers, NaN, invalid UTF-8, closed channel, exhausted iterator, ...), operators and interpolation on all pairs, 17 constructs nested up to 10^3 (thorough 10^6) deep, and (thorough) 870 scripts whose goroutines share a map/set/list (operation pairs x spawn form x ordering, each free-running in a child built with -race; a report through the runtime map routines is the pattern behind fatal concurrent map writes) are pushed through Parse, Program.String, Compile, Eval and the error formatters inside worker children; a child that dies identifies the input in flight.',
+         'Trusted: the worker protocol (index announced before each input). exec, network modules and exit are excluded (statement exemptions); memory exhaustion by inputs that carry an extreme size is exempt. Known findings: cyclic containers exhaust the native stack; script goroutines sharing a map or set reach the Go map unsynchronised (thorough).',
          'E5 enum + E7 crashbox', '4 C03'),
  'C04': ('model_checking', 'explicit-state search over (code, ip, stack height) of the compiled bytecode of every generated program, all paths; effect table validated against every instruction the real VM executes',
          'For every generated program the complete reachable (code, ip, operand-stack height) graph is explored with the invariants one-height-per-ip, no underflow, program ends with exactly its result; the stack-effect table is bound to the implementation by checking every instruction executed by the real VM (step hook) against it; loop skeletons are additionally run at 10 vs >2x/100x stack-capacity iterations against the reference interpreter.',
